@@ -60,6 +60,7 @@ class Module:
         self.inlined_helpers = []
         if os.environ.get("PGVERIF_NO_ALPHA") != "1":
             from . import alpha
+            alpha.lower_simple_match(self.tree)          # simple `match` statements are if/elif chains
             self.inlined_helpers = alpha.inline_new_helpers(self.tree, rel)
             if self.inlined_helpers:
                 ast.fix_missing_locations(self.tree)
